@@ -53,7 +53,7 @@ ASSUMPTIONS = [
     "neutral species get the provider's null tables (value 0); the arguments passed to those tables are not judged",
 ]
 QUICK = dict(cases=1200, workers=2, timecap=36)
-THOROUGH = dict(cases=160000, workers=16, timecap=600)
+THOROUGH = dict(cases=160000, workers=16, timecap=420)
 REQUIRED = {"cx_total": 1500, "cx_mean": 1500, "cx_bounds": 1500, "cx_args": 20000, "bes_total": 1200, "bes_sum": 1200,
             "bes_args": 5000, "zero_beam": 500, "zero_receiver": 100, "zero_ions": 30, "material": 200, "accessors": 3000}
 
